@@ -26,27 +26,28 @@ type wc struct {
 
 // Profile biases the generator for one property.
 type Profile struct {
-	Top                []wc // weights of top-level block kinds
-	Nested             []wc // weights of block kinds inside containers, list items, quotes, cells
-	Core               []wc // if set: weights of block kinds inside the article core (see page)
-	MinTop             int
-	MaxTop             int
-	MaxDepth           int
-	Title              bool                           // emit a <title> (tokens are class A: they live in head)
-	Attr               func(g *G, tag string) string  // extra attributes for any element ("" if none)
-	URL                func(g *G, kind string) string // URL reference for anchors and media
-	LenMix             [3]int                         // weights of short / medium / long paragraphs
-	Inline             []wc                           // weights of inline run kinds
-	HeadJunk           bool                           // script/style in head
-	Carriers           int                            // percentage chance of class A / class B carriers inside cells, captions, tweets
-	TablesInLists      int                            // weight of data tables as the (only) content of list items and quotes
-	RowGaps            bool                           // comments / scripts between the rows and cells of data tables
-	EscapedText        bool                           // pre blocks may hold escaped markup as visible text
-	EmptyCells         bool                           // data tables may hold empty cells and spacer rows
-	InlineNestables    bool                           // ul/ol/li/blockquote/pre may carry style="display:inline"
-	ForeignRawText     bool                           // raw-text elements with markup-like text inside svg/math (cells, captions, tweets, inline)
-	LessThanInCaptions bool                           // figure captions / paragraphs inside figures may hold a literal "<"
-	CommaURLs          bool                           // image URLs may hold commas (w_400,h_300 style path segments)
+	Top                 []wc // weights of top-level block kinds
+	Nested              []wc // weights of block kinds inside containers, list items, quotes, cells
+	Core                []wc // if set: weights of block kinds inside the article core (see page)
+	MinTop              int
+	MaxTop              int
+	MaxDepth            int
+	Title               bool                           // emit a <title> (tokens are class A: they live in head)
+	Attr                func(g *G, tag string) string  // extra attributes for any element ("" if none)
+	URL                 func(g *G, kind string) string // URL reference for anchors and media
+	LenMix              [3]int                         // weights of short / medium / long paragraphs
+	Inline              []wc                           // weights of inline run kinds
+	HeadJunk            bool                           // script/style in head
+	Carriers            int                            // percentage chance of class A / class B carriers inside cells, captions, tweets
+	TablesInLists       int                            // weight of data tables as the (only) content of list items and quotes
+	InlineBlocksInCells bool                           // cells with adjacent inline elements styled display:block
+	RowGaps             bool                           // comments / scripts between the rows and cells of data tables
+	EscapedText         bool                           // pre blocks may hold escaped markup as visible text
+	EmptyCells          bool                           // data tables may hold empty cells and spacer rows
+	InlineNestables     bool                           // ul/ol/li/blockquote/pre may carry style="display:inline"
+	ForeignRawText      bool                           // raw-text elements with markup-like text inside svg/math (cells, captions, tweets, inline)
+	LessThanInCaptions  bool                           // figure captions / paragraphs inside figures may hold a literal "<"
+	CommaURLs           bool                           // image URLs may hold commas (w_400,h_300 style path segments)
 }
 
 func newG(t *rapid.T, p *Profile) *G {
@@ -144,6 +145,9 @@ func (g *G) url(kind string) string {
 	}
 	switch kind {
 	case "a":
+		if g.P.URL == nil && g.intn(0, 14, "asection") == 0 {
+			return rel + "/link/index.php?page=2&amp;section=" + g.tokp("l") // an ordinary link with a "section" parameter
+		}
 		return rel + "/link/" + g.tokp("l") + ".html"
 	case "video", "source-v":
 		return rel + "/vid/" + g.tokp("v") + ".mp4"
@@ -197,7 +201,12 @@ func (g *G) inline(k int) string {
 		case "font":
 			parts = append(parts, `<font color="red"`+g.at("font")+">"+g.words(n)+"</font>")
 		case "a":
-			parts = append(parts, `<a href="`+g.url("a")+`"`+g.at("a")+">"+g.words(n)+"</a>")
+			if g.intn(0, 9, "asym") == 0 {
+				// a link whose text holds no letter or digit
+				parts = append(parts, g.words(n)+` <a href="`+g.url("a")+`"`+g.at("a")+">"+g.pick("asymt", "»", "*", "¶", "§", "·", "»»")+"</a>")
+			} else {
+				parts = append(parts, `<a href="`+g.url("a")+`"`+g.at("a")+">"+g.words(n)+"</a>")
+			}
 		case "ajs1":
 			parts = append(parts, `<a href="javascript:void(0)"`+g.at("a")+">"+g.words(n)+"</a>")
 		case "ajsn":
@@ -501,7 +510,7 @@ func (g *G) foreignRawText() string {
 		`&lt;b onmouseover=a() id=i&gt;x&lt;/b&gt;`, `&lt;style&gt;*{}&lt;/style&gt;&lt;p class=k&gt;`,
 		// markup that imitates the distiller's own embed placeholder
 		`&lt;div class="embed-placeholder" data-type="youtube" data-id="`+g.tokp("fg")+`"&gt;&lt;/div&gt;`, `&lt;div class="embed-placeholder x" data-type="vimeo" data-id="`+g.tokp("fg")+`"&gt;y&lt;/div&gt;`)
-	switch g.pick("mxform", "svg-xmp", "svg-noembed", "math-xmp", "annotation-xml", "svg-noscript", "svg-plaintext") {
+	switch g.pick("mxform", "svg-xmp", "svg-noembed", "math-xmp", "annotation-xml", "svg-noscript", "svg-plaintext", "svg-two-siblings") {
 	case "svg-xmp":
 		return "<svg><xmp>" + payload + "</xmp></svg>"
 	case "svg-noembed":
@@ -512,6 +521,8 @@ func (g *G) foreignRawText() string {
 		return `<math><annotation-xml encoding="text/html"><xmp>` + strings.NewReplacer("&lt;", "<", "&gt;", ">").Replace(payload) + "</xmp></annotation-xml></math>"
 	case "svg-noscript":
 		return "<svg><noscript>" + payload + "</noscript></svg>"
+	case "svg-two-siblings":
+		return "<svg><xmp>x</xmp><noembed>" + payload + "</noembed><noframes>" + payload + "</noframes></svg>"
 	default:
 		return "<svg><plaintext>x</plaintext></svg>"
 	}
@@ -550,6 +561,10 @@ func (g *G) cell() string {
 		}
 		return `<img src="` + g.url("img") + `"` + g.at("img") + ">" + g.words(1)
 	case "list":
+		if g.P.InlineBlocksInCells && g.intn(0, 1, "cellinlblk") == 0 {
+			// inline-tag elements displayed as blocks, with nothing between them in the markup
+			return `<span style="display:block">` + g.words(g.intn(1, 4, "cibw")) + `</span><span style="display:block">` + g.words(g.intn(1, 4, "cibw2")) + `</span><b style="display:block">` + g.words(1) + "</b>"
+		}
 		return "<ul><li>" + g.words(g.intn(1, 5, "clw")) + "</li><li>" + g.words(g.intn(1, 5, "clw2")) + "</li></ul>"
 	default:
 		return "<p>" + g.words(g.intn(1, 12, "cpw")) + "</p>"
@@ -717,6 +732,17 @@ func (g *G) video() string {
 	if g.chance(40, "vtrack") {
 		b.WriteString(`<track src="` + g.url("track") + `" kind="subtitles"` + g.at("track") + ">")
 	}
+	switch g.intn(0, 5, "vfallback") {
+	case 0:
+		// fallback content for browsers without <video>: class B, it is not part of the reading text
+		g.push("hb")
+		b.WriteString(g.words(g.intn(2, 8, "vfbw")))
+		g.pop()
+	case 1:
+		g.push("hb")
+		b.WriteString(`<a href="` + g.url("a") + `">` + g.words(g.intn(2, 5, "vfbw2")) + "</a>")
+		g.pop()
+	}
 	b.WriteString("</video>\n")
 	return b.String()
 }
@@ -829,6 +855,10 @@ func (g *G) classB() string {
 	case "button":
 		return "<button" + g.at("button") + ">" + g.words(g.intn(1, 4, "btw")) + "</button>\n"
 	case "select":
+		if g.intn(0, 2, "selectstray") == 0 {
+			// text of a select that is in no <option> (customisable selects: <button>, <legend> in <optgroup>)
+			return "<select" + g.at("select") + "><button>" + g.words(2) + "</button><option>" + g.words(2) + "</option><optgroup><legend>" + g.words(2) + "</legend><option>" + g.words(1) + "</option></optgroup></select>\n"
+		}
 		return "<select" + g.at("select") + "><option>" + g.words(2) + "</option><option>" + g.words(2) + "</option></select>\n"
 	case "textarea":
 		return "<textarea" + g.at("textarea") + ">" + g.words(g.intn(1, 25, "taw")) + "</textarea>\n"
